@@ -300,8 +300,8 @@ def concrete_decode(cpu, mode, data):
             site = "-"
             while tb is not None:
                 fn = tb.tb_frame.f_code.co_filename
-                if fn.startswith("/repo/amoco/"):
-                    site = "%s.%s" % (fn[len("/repo/amoco/"):-3].replace("/", "."), tb.tb_frame.f_code.co_name)
+                if fn.startswith(bootstrap.REPO + "/amoco/"):
+                    site = "%s.%s" % (fn[len(bootstrap.REPO) + len("/amoco/"):-3].replace("/", "."), tb.tb_frame.f_code.co_name)
                 tb = tb.tb_next
             i = ("exc", type(ex).__name__, str(ex)[:120], site)
         finally:
